@@ -145,6 +145,7 @@ class Recorder:
         self.events = []                   # ("I", pos) ("i", score) ("F",) ("T", pos) ("t", score)
         self.nsteps_api = 0
         self.blog = None                   # optional backend-level log (harness.bkd.Log)
+        self.on_eval = None                # optional callback after every evaluate / evaluate_init
         for name, tag in (("init_pos", "I"), ("iterate", "T")):
             self._wrap_pos(name, tag)
         for name, tag in (("evaluate_init", "i"), ("evaluate", "t")):
@@ -204,10 +205,13 @@ class Recorder:
         def w(score, *a, **k):
             self.events.append((tag, score))
             try:
-                return orig(score, *a, **k)
+                r_ = orig(score, *a, **k)
             except Exception:
                 self.events.append(("X", name))
                 raise
+            if self.on_eval is not None:
+                self.on_eval()
+            return r_
 
         setattr(self.opt, name, w)
 
